@@ -140,7 +140,10 @@ func (e *Exec) callRepo(f *ssa.Function, args []Term, x *ssa.Call) val {
 	}
 	// the postconditions at this call site, stated for the actual arguments (the preconditions are proof obligations of
 	// their own, so no quantified guard is needed here; quantified postconditions are instantiated at the goal constants)
-	if ct != nil && e.parent == nil {
+	if ct != nil && e.parent == nil && f.Origin() == nil {
+		// (not for an instance of a generic function: its clauses are written over the type parameters, and stating them
+		// for concrete argument types mixed the sorts - the scripts of vers.pypiContains were rejected by the solvers under
+		// C04; the quantified axioms of the generic function remain available)
 		env := e.g.calleeEnv(f, args)
 		for _, cl := range ct.clauses {
 			if cl.kind != "ensures" || !e.g.tagAllowed(cl.tags) || e.w.clauseIsFinding(f, cl, cl.ord) || len(cl.using) > 0 {
@@ -468,6 +471,10 @@ func (e *Exec) builtin(x *ssa.Call, b *ssa.Builtin) {
 			}
 			e.setVal(x, val{t: r})
 			return
+		}
+		if e.parent == nil && len(e.bound) == 0 && n == 1 && len(e.root().appendAt) < 6 {
+			// the position a single appended element lands on: a candidate witness for "some element of the new slice is …"
+			e.root().appendAt = append(e.root().appendAt, fmt.Sprintf("(len_%s %s)", s, base))
 		}
 		arr := fmt.Sprintf("(arr_%s %s)", s, base)
 		for i := 0; i < n; i++ {
